@@ -11,7 +11,7 @@ import (
 
 func init() {
 	register(&Rule{ID: "VF-22", Title: "pooled read buffers: closed exactly once, never touched or handed out after Close",
-		Props: []string{"C12", "C06"}, Floor: 2, Run: runVF22})
+		Props: []string{"C12", "C06", "C15", "C11"}, Floor: 2, Run: runVF22})
 }
 
 // types.PooledBuffer.Close hands the backing array back to the sync.Pool ("It's no longer safe to access Bs
